@@ -23,6 +23,8 @@ def shard(desc):
     kk = 0
     for typ, ka, kb in desc['work']:
         ma, mb = rng.randint(1, 4), rng.randint(1, 3)
+        if ka >= 61 or kb >= 61:
+            ma = mb = 1          # 2^62 + 2^62 = 2^63 observations: the largest size that leaves room for further adds in a u64
         base_a = [float(rng.randint(-20, 20)) + rng.choice([0.0, 0.5, 0.25]) for _ in range(ma)]
         base_b = [float(rng.randint(30, 60)) + rng.choice([0.0, 0.5]) for _ in range(mb)]
         extras = [rng.choice([-1, 1]) * float(rng.randint(100, 400)), float(rng.randint(-5, 5)), 7.25]
@@ -105,6 +107,8 @@ def shard(desc):
                 res.count('bigcount_states_above_2^32')
             if mo.n > 2 ** 53:
                 res.count('bigcount_states_above_2^53')
+            if mo.n >= 2 ** 63:
+                res.count('bigcount_states_from_2^63')
             if nt:
                 res.count('bigcount_nontrivial_states')
         res.count('histories')
